@@ -191,7 +191,35 @@ Theorem C19_local_eth_steps_fit :
     Forall (fits N) (spinn5_local_eth_coord_steps x y w h rx ry).
 Proof. exact local_eth_steps_fit. Qed.
 
+(* The two functions tied together: whenever the board's Ethernet chip is in the machine, the local
+   Ethernet chip reported for a chip is one of the listed Ethernet coordinates (on a torus: always). *)
+Theorem C19_local_eth_in_eth_coords :
+  forall x y w h rx ry e,
+    board_eth (rx, ry) (x, y) e -> in_machine w h e ->
+    spinn5_local_eth_coord x y w h rx ry = Ok e /\ In e (spinn5_eth_coords w h rx ry).
+Proof. exact local_eth_in_eth_coords. Qed.
+
+Theorem C19_local_eth_in_eth_coords_torus :
+  forall w h rx ry x y,
+    full_torus w h -> in_machine w h (x, y) ->
+    exists e, spinn5_local_eth_coord x y w h rx ry = Ok e /\ In e (spinn5_eth_coords w h rx ry).
+Proof. exact local_eth_in_eth_coords_torus. Qed.
+
 (* Non-vacuity. *)
+Example C19_eth_coords_instances :
+  spinn5_eth_coords 24 12 3 5 = [(3, 5); (7, 1); (11, 9); (15, 5); (19, 1); (23, 9)] /\
+  spinn5_eth_coords 16 20 0 0 = [(0, 0); (4, 8); (8, 4); (0, 12); (8, 16); (12, 0); (12, 12)].
+Proof. exact ex_eth_lists. Qed.
+
+(* The guard of C19_local_eth_ragged is needed: in the 8 x 8 machine of one board, position (5, 0) of the
+   bounding box lies on the board whose Ethernet chip (4, -4) is not in the machine; the function answers
+   (4, 4), which is neither that chip nor an Ethernet chip nor in the list. *)
+Example C19_ragged_guard_is_needed :
+  in_machine 8 8 (5, 0) /\ board_eth (0, 0) (5, 0) (4, -4) /\ ~ in_machine 8 8 (4, -4) /\
+  spinn5_local_eth_coord 5 0 8 8 0 0 = Ok (4, 4) /\ ~ is_eth (0, 0) (4, 4) /\
+  ~ In (4, 4) (spinn5_eth_coords 8 8 0 0).
+Proof. exact ex_ragged_outside. Qed.
+
 Example C19_board_eth_satisfiable : board_eth (3, 5) (10, 9) (3, 5).
 Proof. exact ex_board_eth. Qed.
 
